@@ -99,6 +99,7 @@ and parse_ixd (t : toks) : M.ixd =
   | "SF" -> let a = nz t in let s = nz t in let e = nz t in M.mk_SF a s e
   | "EF" -> let a = nz t in let s = nz t in M.mk_EF a s
   | "EFX" -> let a = nz t in let s = nz t in let x = nz t in M.mk_EFX a s x
+  | "EFN" -> let a = nz t in let s = nz t in M.mk_EFN a s
   | "WD" -> let a = nz t in let s = nz t in let b = nz t in let m = nz t in M.mk_WD a s b m
   | "RP" -> let a = nz t in let s = nz t in let b = nz t in let m = nz t in M.mk_RP a s b m
   | "BR" -> let a = nz t in let s = nz t in let b = nz t in let m = nz t in M.mk_BR a s b m
